@@ -17,8 +17,15 @@ TABLE = {
                 explanation='proved: the worklist fixed point of cfg.GraphVisitor (shared with C07); assumed with bounded stand-ins: '
                             'the reaching-definitions transfer function equations (checked at run time on every graph) and the '
                             'end-to-end last-writer soundness'),
-    'C08': dict(level='other', bounded=[('c08_activity.py', 'symtable comparison per function + dynamic read/write log per executed statement')],
-                explanation='bounded stand-in only in this revision (Scope algebra contracts not yet discharged)'),
+    'C08': dict(level='other', bounded=[('c08_activity.py', 'symtable comparison per function + dynamic read/write log per executed statement'),
+                                        ('rt_scope.py', 'run-time evaluation of the Scope / recorder contracts on random scope chains')],
+                explanation='proved: the Scope algebra (finalize: a block scope reports everything but its isolated names to its parent, '
+                            'a function scope only read - bound and unbound annotations, nothing else changes; referenced = read | bound '
+                            'up the chain; free_vars; enclosing_scope; mark_param; __init__ owns fresh sets) and the recorder kernel '
+                            '(_track_symbol: Store -> modified+bound (+read in an augmented assignment, +parent for composite writes), '
+                            'Load -> read (+annotations), Del -> read+bound+deleted; _enter_scope / _exit_scope); assumed with a bounded '
+                            'stand-in: the per-construct visitors that decide which nodes reach the recorder in which scope '
+                            '(symtable and dynamic read/write oracles)'),
     'C02': dict(level='other', bounded=[('c02_functional.py', 'side-effect-free functional backend installed as the operators, compared with the original'),
                                         ('rt_blockvars.py', 'run-time evaluation of the state-selection contracts on small inputs')],
                 explanation='proved: state-variable selection (_get_block_basic_vars/_get_block_composite_vars/_get_block_vars: exactly the '
